@@ -6,8 +6,18 @@ set -e
 d=/root/scratch/$1
 cd "$d"
 git checkout -q -B "builder-$1"
+git rm -q --cached coq/.filelist 2>/dev/null || true
 git add -A
 git -c user.name=builder -c user.email=builder@example.invalid commit -q -m "builder $1: delivery" || true
 cd /verif
 git fetch -q "$d" "builder-$1"
-git merge --no-edit FETCH_HEAD || { echo "CONFLICTS:"; git diff --name-only --diff-filter=U; exit 1; }
+if ! git merge --no-edit FETCH_HEAD >/tmp/merge.log 2>&1; then
+  tail -5 /tmp/merge.log
+  if git diff --name-only --diff-filter=U | grep -q '^lib/levels.json$'; then python3 tools/resolve_levels.py; git add lib/levels.json; fi
+  if git status --short | grep -q 'coq/.filelist'; then git rm -q --cached coq/.filelist 2>/dev/null || true; fi
+  for f in $(git diff --name-only --diff-filter=U); do case $f in evidence/*|MANIFEST.json) git checkout --ours -- $f; git add $f;; esac; done
+  left=$(git diff --name-only --diff-filter=U)
+  if [ -n "$left" ]; then echo "UNRESOLVED: $left"; exit 1; fi
+  git commit -q -m "Merge builder $1"
+fi
+git log --oneline | head -1
